@@ -24,6 +24,7 @@ const (
 	opPersistPrivate
 	opChangeSet // PutChangeSet{Key: v1, Key2: nil} directly on the backend
 	opGC        // SeekGC on the backend over the class base, dropping entries with an empty value
+	opReopen    // Close() of the top layer (closes everything below it), then the database is opened again
 )
 
 type op struct {
@@ -36,7 +37,7 @@ type op struct {
 }
 
 // alphabet for a stack of n layers, simplest first.
-func alphabet(sc *scen, shape string, nvals int, lowerWrites bool) []op {
+func alphabet(sc *scen, shape string, nvals int, lowerWrites, reopen bool) []op {
 	var ops []op
 	n := len(shape)
 	valOrder := []int{0, 1, 2}[:nvals]
@@ -65,6 +66,9 @@ func alphabet(sc *scen, shape string, nvals int, lowerWrites bool) []op {
 	}
 	ops = append(ops, op{Kind: opChangeSet, Key: 0, Key2: -1, Val: 1, Name: fmt.Sprintf("Backend.PutChangeSet{%q:empty}", sc.Keys[0])})
 	ops = append(ops, op{Kind: opGC, Name: fmt.Sprintf("Backend.SeekGC(%q,drop empty values)", sc.Base)})
+	if reopen {
+		ops = append(ops, op{Kind: opReopen, Name: "Top.Close()+reopen the database"})
+	}
 	return ops
 }
 
@@ -86,11 +90,40 @@ func legal(m *model, o op) bool {
 		return true
 	case opPersistPrivate:
 		return o.Layer == n && n >= 2 && m.kinds[n-1] == 'p'
+	case opReopen:
+		return m.beKind == "bolt" || m.beKind == "level"
 	}
 	return true
 }
 
+// refused: the operation writes to a read-only backend; it has to fail and to
+// leave every level as it was.
+func refused(m *model, o op) bool {
+	if !isRO(m.beKind) {
+		return false
+	}
+	switch o.Kind {
+	case opPersist, opPersistSync:
+		return o.Layer == 1
+	case opChangeSet, opGC:
+		return true
+	}
+	return false
+}
+
+// persistPops: a flushed private layer is gone afterwards.
+func persistPops(m *model, o op) bool {
+	switch o.Kind {
+	case opPersist, opPersistSync, opPersistPrivate:
+		return m.kinds[o.Layer-1] == 'p' && !refused(m, o)
+	}
+	return false
+}
+
 func applyModel(m *model, sc *scen, o op) {
+	if refused(m, o) {
+		return
+	}
 	switch o.Kind {
 	case opPut:
 		m.ly[o.Layer-1][sc.Keys[o.Key]] = vals[o.Val]
@@ -115,6 +148,10 @@ func applyModel(m *model, sc *scen, o op) {
 				delete(m.be, k)
 			}
 		}
+	case opReopen:
+		for i := range m.ly {
+			m.ly[i] = level{} // pending changes die with the process
+		}
 	}
 }
 
@@ -128,8 +165,10 @@ type env struct {
 	bolt  *storage.BoltDBStore
 	lvl   *storage.LevelDBStore
 
-	lvlDir  string
-	lvlUses int
+	lvlDir   string
+	lvlUses  int
+	boltPath string
+	ro       map[string]storage.Store
 }
 
 func newEnv() *env {
@@ -144,23 +183,58 @@ func (e *env) close() {
 	if e.lvl != nil {
 		_ = e.lvl.Close()
 	}
+	for _, st := range e.ro {
+		_ = st.Close()
+	}
 	e.clean()
 }
 
 var envSeq vk.Counter
 
-func (e *env) backend(kind string) storage.Store {
+// open goes through storage.NewStore (the configuration-driven constructor the
+// node uses) and insists on the configured implementation.
+func open(kind, path string, ro bool) storage.Store {
+	var cfg dbconfig.DBConfiguration
 	switch kind {
 	case "mem":
-		return storage.NewMemoryStore()
+		cfg.Type = dbconfig.InMemoryDB
+	case "bolt":
+		cfg.Type = dbconfig.BoltDB
+		cfg.BoltDBOptions = dbconfig.BoltDBOptions{FilePath: path, ReadOnly: ro}
+	case "level":
+		cfg.Type = dbconfig.LevelDB
+		cfg.LevelDBOptions = dbconfig.LevelDBOptions{DataDirectoryPath: path, ReadOnly: ro}
+	}
+	st, err := storage.NewStore(cfg)
+	if err != nil {
+		panic(fmt.Sprintf("NewStore(%s): %v", kind, err))
+	}
+	ok := false
+	switch kind {
+	case "mem":
+		_, ok = st.(*storage.MemoryStore)
+	case "bolt":
+		_, ok = st.(*storage.BoltDBStore)
+	case "level":
+		_, ok = st.(*storage.LevelDBStore)
+	}
+	if !ok {
+		panic(fmt.Sprintf("NewStore(%s) returned %T", kind, st))
+	}
+	return st
+}
+
+func isRO(kind string) bool { return strings.HasSuffix(kind, "-ro") }
+
+func (e *env) backend(kind string, sc *scen) storage.Store {
+	switch kind {
+	case "mem":
+		return open("mem", "", false)
 	case "bolt":
 		if e.bolt == nil {
 			envSeq.Inc()
-			b, err := storage.NewBoltDBStore(dbconfig.BoltDBOptions{FilePath: fmt.Sprintf("%s/bolt-%d.db", e.dir, envSeq.Get())})
-			if err != nil {
-				panic(err)
-			}
-			e.bolt = b
+			e.boltPath = fmt.Sprintf("%s/bolt-%d.db", e.dir, envSeq.Get())
+			e.bolt = open("bolt", e.boltPath, false).(*storage.BoltDBStore)
 		}
 		return e.bolt
 	case "level":
@@ -174,15 +248,49 @@ func (e *env) backend(kind string) storage.Store {
 		if e.lvl == nil {
 			envSeq.Inc()
 			e.lvlDir = fmt.Sprintf("%s/level-%d", e.dir, envSeq.Get())
-			b, err := storage.NewLevelDBStore(dbconfig.LevelDBOptions{DataDirectoryPath: e.lvlDir})
-			if err != nil {
-				panic(err)
-			}
-			e.lvl = b
+			e.lvl = open("level", e.lvlDir, false).(*storage.LevelDBStore)
 		}
 		return e.lvl
+	case "bolt-ro", "level-ro":
+		// a database holding the scenario's initial content, reopened read-only:
+		// every write to it fails, so one instance per scenario serves all cases.
+		key := kind + "/" + sc.Name + fmt.Sprint(len(sc.Keys))
+		if st := e.ro[key]; st != nil {
+			return st
+		}
+		envSeq.Inc()
+		base := strings.TrimSuffix(kind, "-ro")
+		path := fmt.Sprintf("%s/%s-ro-%d", e.dir, base, envSeq.Get())
+		rw := open(base, path, false)
+		a, b := splitCS(level(sc.BeInit))
+		if err := rw.PutChangeSet(a, b); err != nil {
+			panic(err)
+		}
+		if err := rw.Close(); err != nil {
+			panic(err)
+		}
+		st := open(base, path, true)
+		if e.ro == nil {
+			e.ro = map[string]storage.Store{}
+		}
+		e.ro[key] = st
+		return st
 	}
 	panic("backend kind " + kind)
+}
+
+// reopened returns the disk backend of this worker opened again from its files
+// after it has been closed (a node restart).
+func (e *env) reopened(kind string) storage.Store {
+	switch kind {
+	case "bolt":
+		e.bolt = open("bolt", e.boltPath, false).(*storage.BoltDBStore)
+		return e.bolt
+	case "level":
+		e.lvl = open("level", e.lvlDir, false).(*storage.LevelDBStore)
+		return e.lvl
+	}
+	panic("reopen " + kind)
 }
 
 // drop forgets a disk backend whose state can not be trusted any more (panic).
@@ -198,10 +306,16 @@ func (e *env) drop(kind string) {
 			_ = e.lvl.Close()
 			e.lvl = nil
 		}
+	default:
+		for k, st := range e.ro {
+			_ = st.Close()
+			delete(e.ro, k)
+		}
 	}
 }
 
 type rstack struct {
+	env    *env
 	sc     *scen
 	beKind string
 	be     storage.Store
@@ -226,21 +340,36 @@ func splitCS(cs level) (map[string][]byte, map[string][]byte) {
 // batch). Stacks whose lowest layer is a regular one are built the way the node
 // does it: dao.NewSimple(backend), then GetWrapped()/GetPrivate().
 func newStack(e *env, sc *scen, beKind, shape string) *rstack {
-	s := &rstack{sc: sc, beKind: beKind, be: e.backend(beKind)}
-	init := level{}
-	if beKind != "mem" {
-		s.be.Seek(storage.SeekRange{}, func(k, v []byte) bool {
-			init[string(k)] = nil
-			return true
-		})
+	s := &rstack{env: e, sc: sc, beKind: beKind, be: e.backend(beKind, sc)}
+	if !isRO(beKind) {
+		init := level{}
+		if beKind != "mem" {
+			s.be.Seek(storage.SeekRange{}, func(k, v []byte) bool {
+				init[string(k)] = nil
+				return true
+			})
+		}
+		for k, v := range sc.BeInit {
+			init[k] = v
+		}
+		a, b := splitCS(init)
+		if err := s.be.PutChangeSet(a, b); err != nil {
+			panic(err)
+		}
 	}
-	for k, v := range sc.BeInit {
-		init[k] = v
+	s.buildLayers(shape)
+	for k, v := range sc.L1Init {
+		if v == nil {
+			s.ly[0].Delete([]byte(k))
+		} else {
+			s.ly[0].Put([]byte(k), v)
+		}
 	}
-	a, b := splitCS(init)
-	if err := s.be.PutChangeSet(a, b); err != nil {
-		panic(err)
-	}
+	return s
+}
+
+func (s *rstack) buildLayers(shape string) {
+	s.ly, s.daos = nil, nil
 	if shape[0] == 'r' {
 		d := dao.NewSimple(s.be, false)
 		s.daos = append(s.daos, d)
@@ -254,27 +383,19 @@ func newStack(e *env, sc *scen, beKind, shape string) *rstack {
 			s.daos = append(s.daos, d)
 			s.ly = append(s.ly, d.Store)
 		}
-	} else {
-		var lower storage.Store = s.be
-		for i := range shape {
-			var c *storage.MemCachedStore
-			if shape[i] == 'r' {
-				c = storage.NewMemCachedStore(lower)
-			} else {
-				c = storage.NewPrivateMemCachedStore(lower)
-			}
-			s.ly = append(s.ly, c)
-			lower = c
-		}
+		return
 	}
-	for k, v := range sc.L1Init {
-		if v == nil {
-			s.ly[0].Delete([]byte(k))
+	var lower storage.Store = s.be
+	for i := range shape {
+		var c *storage.MemCachedStore
+		if shape[i] == 'r' {
+			c = storage.NewMemCachedStore(lower)
 		} else {
-			s.ly[0].Put([]byte(k), v)
+			c = storage.NewPrivateMemCachedStore(lower)
 		}
+		s.ly = append(s.ly, c)
+		lower = c
 	}
-	return s
 }
 
 func (s *rstack) daoKey(k string) ([]byte, bool) {
@@ -332,6 +453,12 @@ func (s *rstack) apply(m *model, o op) (res string) {
 		default:
 			n, err = s.ly[i].PersistSync()
 		}
+		if refused(m, o) {
+			if err == nil {
+				return "ok-but-no-error-from-read-only-backend"
+			}
+			return "ok-refused"
+		}
 		if err != nil {
 			return "error: " + err.Error()
 		}
@@ -364,6 +491,9 @@ func (s *rstack) apply(m *model, o op) (res string) {
 		}
 		a, b := splitCS(cs)
 		if err := s.be.PutChangeSet(a, b); err != nil {
+			if refused(m, o) {
+				return "ok-refused"
+			}
 			return "error: " + err.Error()
 		}
 	case opGC:
@@ -371,8 +501,18 @@ func (s *rstack) apply(m *model, o op) (res string) {
 			return len(v) != 0, true
 		})
 		if err != nil {
+			if refused(m, o) {
+				return "ok-refused"
+			}
 			return "error: " + err.Error()
 		}
+	case opReopen:
+		// Close of a layer closes all the stores below it, the database included.
+		if err := s.ly[len(s.ly)-1].Close(); err != nil {
+			return "error: Close: " + err.Error()
+		}
+		s.be = s.env.reopened(s.beKind)
+		s.buildLayers(string(m.kinds))
 	}
 	return "ok"
 }
@@ -383,4 +523,3 @@ func (s *rstack) pop() {
 		s.daos = s.daos[:len(s.daos)-1]
 	}
 }
-
